@@ -400,6 +400,11 @@ func init() {
 			c.set(e.goInt(int64(n)))
 			return true
 		},
+		// vNative(): false under the engine, true in a native replay (for assertions about engine-only bookkeeping)
+		"vNative": func(e *Engine, c *callCtx) bool {
+			c.set(BoolV{e.tb.ff})
+			return true
+		},
 		"vSpawnCount": func(e *Engine, c *callCtx) bool {
 			c.set(e.goInt(int64(len(c.st.spawns))))
 			return true
